@@ -33,7 +33,8 @@ from .loglik import ProcessTap, ref_logp, tol
 DEPOT_ENVS = {"cvrp", "cvrptw", "sdvrp", "op", "pctsp", "spctsp", "pdp", "mtsp", "mtvrp"}
 START_RULE_ENVS = list(P.MULTISTART_ENVS) + ["fjsp", "jssp"]
 SAMPLE_ONLY_ENVS = ["svrp", "smtwtp", "mdcpdp"]          # no start rule: multi-sample only
-ROLLOUT_ENVS = START_RULE_ENVS + SAMPLE_ONLY_ENVS
+TABLE_RULE_ENVS = ["ffsp"]                               # start rule = machine-table augmentation
+ROLLOUT_ENVS = START_RULE_ENVS + SAMPLE_ONLY_ENVS + TABLE_RULE_ENVS
 AM_ENVS = ["tsp", "cvrp", "cvrptw", "sdvrp", "op", "pctsp", "spctsp", "pdp", "mtsp", "mtvrp"]
 PAYLOAD_KEY_ENVS = {"fjsp", "jssp"}  # no static instance tensor survives the forced move: key by payload
 MAX_REF_ROWS = 12
@@ -65,15 +66,14 @@ class C12:
                        "the shared_step runs (outputs encode instance id and row)", "trainer shim log_dict"]
     assumptions = ["CPU float32", "instances from the library generators at 3-8 nodes; OP max_length hand-set",
                    "feasible starts are counted without the depot for environments whose rule excludes it",
-                   "an OP instance without any reachable customer is skipped (no start can be forced)",
-                   "mTSP runs with B >= 2 (0-dim reward at a single row is C14's finding)"]
+                   "FFSP's start rule replicates machine tables and forces the same (wait) action k times by "
+                   "design: only feasibility of the forced action is demanded there"]
     required_probes = ["ops_nested", "ops_tensordict", "forced_start_checked", "k_beyond_feasible",
                        "some_first_moves_infeasible", "solo_rows_rederived", "select_best_checked",
                        "shared_step_checked", "am_batched_vs_solo"]
     excluded = [
-        ["scripted", "ffsp", "multistart/num_samples", "FFSPEnv.select_start_nodes raises AttributeError "
-         "(IndexTables.augment_machine_tables does not exist) and num_samples fails in get_machine_index: the "
-         "per-episode tables live on the environment object and are not replicated; not an anchored start rule"],
+        ["scripted", "ffsp", "num_samples", "the per-episode machine tables live on the environment object and are not "
+         "replicated by batchify (IndexError in get_machine_index); FFSP's own start rule (multistart) IS exercised"],
         ["scripted", "dpp/mdpp/svrp/smtwtp/mdcpdp", "multistart", "get_num_starts defines no start-node rule"],
         ["am", "atsp/flp/mcp", "*", "no embeddings (Appendix B)"],
     ]
@@ -108,8 +108,7 @@ class C12:
 
     @staticmethod
     def shrink(plan):
-        if plan["scenario"] in ("rollout", "am", "shared_step") and len(plan["instances"]) > (
-                2 if plan["cfg"]["env"] == "mtsp" or plan["scenario"] == "am" else 1):
+        if plan["scenario"] in ("rollout", "am", "shared_step") and len(plan["instances"]) > 1:
             for i in range(len(plan["instances"])):
                 p = copy.deepcopy(plan)
                 del p["instances"][i]
@@ -324,8 +323,6 @@ def _plan_rollout(rc, st, name, tier):
     cfg = _small_cfg(name, rc, tier)
     env = E.make_env(cfg)
     B = rc.choice([1, 2, 2, 3, 3, 4])
-    if name == "mtsp":
-        B = max(B, 2)  # MTSPEnv.get_reward is 0-dim for a single row: C14's business
     rows = E.gen_rows(env, cfg, B, st.torch_seed("instances"))
     hand = False
     if name == "op" and rc.random() < 0.6:
@@ -341,6 +338,8 @@ def _plan_rollout(rc, st, name, tier):
     nfeas = min(len(_feasible_starts(name, td0["action_mask"][b])) for b in range(B))
     if name in START_RULE_ENVS:
         mode = rc.choice(["multistart_greedy", "multistart_sampling", "multisample"])
+    elif name in TABLE_RULE_ENVS:
+        mode = rc.choice(["multistart_greedy", "multistart_sampling"])
     else:
         mode = "multisample"
     if mode == "multisample":
@@ -348,6 +347,8 @@ def _plan_rollout(rc, st, name, tier):
     else:
         cands = [1, 2, 2, 3, max(1, gns - 1), gns, gns, gns + 1, gns + 3, max(1, nfeas), nfeas + 1]
         k = max(1, min(rc.choice(cands), 12))
+        if name in TABLE_RULE_ENVS:
+            k = max(2, min(k, 6))
     return {"scenario": "rollout", "cfg": cfg, "instances": [E.enc_row(r) for r in rows], "hand_built": hand,
             "mode": mode, "k": k, "select_best": rc.random() < 0.5,
             "scripted_mode": rc.choice(["gaussian", "gaussian", "gaussian", "ties", "huge", "flat", "one_dominant"]),
@@ -392,6 +393,8 @@ def _check_starts(run, name, cfg, masks, starts, k, B, where):
                         every_row_has_k_feasible=bool(all(len(_feasible_starts(name, masks[i])) >= k
                                                           for i in range(B))))
             tainted.add(b)
+        if name in TABLE_RULE_ENVS:
+            continue  # the k replicas differ by machine table, not by first action
         if len(feas) >= k and len(set(acts)) < k:
             constraint = "op_resample_duplicates" if name == "op" else "duplicate_starts"
             run.violate(name, "forced_start_duplicate", f"{where}: instance {b} has {len(feas)} feasible starts but the {k} "
@@ -399,6 +402,11 @@ def _check_starts(run, name, cfg, masks, starts, k, B, where):
                         starts=acts, n_feasible=len(feas), where=where,
                         some_row_short=bool(any(len(_feasible_starts(name, masks[i])) < k for i in range(B))))
     return tainted
+
+
+def _max_steps(td) -> int:
+    """generous cap on decoding steps: keeps a run bounded when a mutant breaks termination"""
+    return 6 * int(td["action_mask"].shape[-1]) + 60
 
 
 def _scripted_policy(plan, name):
@@ -432,7 +440,6 @@ def _exec_rollout(run):
     run.nontrivial = replicated
     if name == "op" and multistart and any(len(_feasible_starts(name, masks[b])) == 0 for b in range(B)):
         run.probe("op_no_reachable_customer")
-        return
     tainted = set()
     # ---- the start-node rule, called directly -----------------------------------------------------
     if multistart:
@@ -451,7 +458,7 @@ def _exec_rollout(run):
     with torch.no_grad():
         with run.guard(name, f"policy forward ({mode}, k={k})", mode=mode, k=k, B=B):
             out = pol(td.clone(), env, phase="test", return_actions=True, return_sum_log_likelihood=False,
-                      select_best=False, **kw)
+                      select_best=False, max_steps=_max_steps(td), **kw)
     acts, ll, rew = out["actions"], out["log_likelihood"].detach().double(), out["reward"].detach().double()
     R = acts.shape[0]
     T = acts.shape[1]
@@ -473,6 +480,9 @@ def _exec_rollout(run):
         g = torch.Generator().manual_seed(plan["ref_rows_seed"])
         order = sorted(torch.randperm(R, generator=g)[:MAX_REF_ROWS].tolist())
     greedy = mode == "multistart_greedy"
+    if name in TABLE_RULE_ENVS:
+        run.probe("table_rule_reference_skipped")  # a B=1 reference would need the same table augmentation
+        order = []
     for r in order:
         b, j = r % B, r // B
         if b in tainted:
@@ -537,7 +547,7 @@ def _exec_rollout(run):
         with torch.no_grad():
             with run.guard(name, f"policy forward ({mode}, k={k}, select_best)", mode=mode, k=k, B=B):
                 ob = pol(td.clone(), env, phase="test", return_actions=True, return_sum_log_likelihood=False,
-                         select_best=True, **kw)
+                         select_best=True, max_steps=_max_steps(td), **kw)
         ab, lb, rb = ob["actions"], ob["log_likelihood"].detach().double(), ob["reward"].detach().double().flatten()
         if ab.shape[0] != B or rb.shape[0] != B:
             run.violate(name, "select_best", f"select_best returned {ab.shape[0]} rows for {B} instances",
@@ -891,7 +901,7 @@ def _exec_am(run):
     def forward(t, sel=False):
         with torch.no_grad(), ProcessTap() as tap:
             o = pol(t, env, phase="test", return_actions=True, return_sum_log_likelihood=False,
-                    select_best=sel, **kw)
+                    select_best=sel, max_steps=_max_steps(t), **kw)
         return o, tap
 
     with run.guard(scope, f"policy forward ({mode}, k={k})", mode=mode, k=k, B=B, multistart=True):
@@ -1090,7 +1100,31 @@ def _canary_pomo_regroup_swapped():
     return _patch_many([(pm, "unbatchify", unbatchify)])
 
 
+def _canary_op_starts_ignore_mask():
+    """OP start nodes 1..k whenever every instance has >= k reachable customers, reachable or not -- the
+    defect repaired by the repo commit 'fix: OP multi-start forces start nodes that are masked'."""
+    from einops import rearrange
+    from rl4co.utils import ops
+
+    orig = ops.select_start_nodes
+
+    def select_start_nodes(td, env, num_starts):
+        if env.name != "op":
+            return orig(td, env, num_starts)
+        num_loc = env.generator.num_loc if hasattr(env.generator, "num_loc") else 0xFFFFFFFF
+        selected = torch.arange(num_starts, device=td.device).repeat_interleave(td.shape[0]) % num_loc + 1
+        if (td["action_mask"][..., 1:].float().sum(-1) < num_starts).any():
+            w = td["action_mask"][..., 1:].float()
+            w = torch.cat(((w.sum(-1, keepdim=True) == 0).float(), w), -1)
+            selected = rearrange(torch.multinomial(w, num_starts, replacement=True), "b n -> (n b)")
+        return selected
+
+    pairs = [(m, "select_start_nodes", select_start_nodes) for m in _modules_binding("select_start_nodes", orig)]
+    return _patch_many(pairs)
+
+
 C12.CANARIES = {
+    "op_starts_ignore_mask": _canary_op_starts_ignore_mask,
     "batchify_repeat_interleave": _canary_batchify_interleave,
     "unbatchify_no_permute": _canary_unbatchify_no_permute,
     "start_nodes_mod_num_loc_plus_1": _canary_start_nodes_mod,
